@@ -8,7 +8,7 @@ IDS=${@:-$(ls seeded)}
 for id in $IDS; do
   P=${id%%-*}
   props=$P; runs=""
-  case $id in C04-m1) props="C04 C07";; C04-w3m2) props="C04 C13";; C18-w3m2) props="C18 C02";; C13-m3) runs=24000;; C12-w2m2|C08-w2m2|C09-w3m1|C11-w3m1|C04-w3m1|C13-w3m2|C07-w3m1|C12-w3m2|C15-w3m1|C08-w3m2) echo "$id known-miss (see DESIGN.md 13.7)"; continue;; esac
+  case $id in C04-m1) props="C04 C07";; C04-w3m2) props="C04 C13";; C18-w3m2) props="C18 C02";; C13-m3) runs=24000;; C12-w2m2|C08-w2m2|C09-w3m1|C11-w3m1|C04-w3m1|C13-w3m2|C07-w3m1|C15-w3m1|C08-w3m2) echo "$id known-miss (see DESIGN.md 13.7)"; continue;; esac
   out=$(VERIF_RUNS=$runs LINES_MAX=40 tools/try_mutant.sh /verif/seeded/$id/patch.diff $props 2>&1)
   if echo "$out" | grep -q "^VIOLATION"; then echo "$id caught: $(echo "$out" | grep -A1 '^VIOLATION' | grep -o 'signature="[^"]*" runs=[0-9]*' | head -2 | tr '\n' ';')"; else echo "$id MISSED: $(echo "$out" | tail -1)"; fi
 done
